@@ -1,8 +1,8 @@
 package c12
 
 import (
-	"math"
 	"fmt"
+	"math"
 	"math/rand"
 	"sort"
 	"strconv"
